@@ -98,6 +98,9 @@ class SingleRootField(June2018ReleaseValidationRule):
                     if selection.alias
                     else selection.name.value
                 )
+                if len(response_keys) == 2 and not self._culprit:
+                    # The selection set in which the second root field sits
+                    self._culprit.append(selection_set)
         return response_keys
 
     def _validate_selection_set(
@@ -113,9 +116,12 @@ class SingleRootField(June2018ReleaseValidationRule):
                 schema.subscription_operation_name
             )
 
+        self._culprit = []
         response_keys = self._collect_response_keys(
             selection_set, fragments, set(), set(), schema, root_type
         )
+        if self._culprit:
+            selection_set = self._culprit[0]
         if len(response_keys) != 1:
             message = f"{f'Subcription {operation.name.value}' if operation.name else 'Anonymous Subscription'}"
             return [
